@@ -128,6 +128,9 @@ func run(c *h.Check) {
 	for _, m := range midcases() {
 		c.Explore(midScenario(m), bound, 0, false)
 	}
+	for _, s := range sharedcases() {
+		c.Explore(sharedScenario(s), bound, 0, false)
+	}
 	if c.Thorough() {
 		for _, p := range concurrent() {
 			q := *p
@@ -146,6 +149,11 @@ func replay(c *h.Check, rf *h.ReplayFile) []vrt.Violation {
 	for _, m := range midcases() {
 		if m.name() == rf.Scenario {
 			return h.ReplaySchedule(midScenario(m), rf)
+		}
+	}
+	for _, s := range sharedcases() {
+		if s.name() == rf.Scenario {
+			return h.ReplaySchedule(sharedScenario(s), rf)
 		}
 	}
 	vrt.MachineryFault("unknown scenario %q", rf.Scenario)
